@@ -47,6 +47,9 @@ type airTraceStats struct {
 	// reinit_dkg operations: entries handed to the shadow machines, entries the handler passes over
 	ReinitEntries    int
 	ReinitPassedOver int
+	// entries of an unknown type in hand-made payloads; hand-made payloads handed to fresh machines
+	ReinitFailingEntries int
+	CraftedReinits       int
 }
 
 type airTrace struct {
@@ -630,6 +633,18 @@ func (t *airTrace) recordReinit(c *cluster, n *vnode, cold types.Operation, rb [
 			passed++
 			continue
 		}
+		switch string(o.Type) {
+		case "state_dkg_commits_await_confirmations", "state_dkg_deals_await_confirmations", "state_dkg_responses_await_confirmations",
+			"state_dkg_master_key_await_confirmations", "state_signing_await_partial_signs":
+		default:
+			// a type handleOperation does not know: the handler fails before it touches anything (the shadow machine is not
+			// bothered with it); what GetOperationResult makes of that depends on whether the machine holds an instance of the
+			// entry's round by then
+			t.emit(fmt.Sprintf("innerfail %d %s", sid, strTok(o.DKGIdentifier)), "ok")
+			t.st.ReinitFailingEntries++
+			entries++
+			continue
+		}
 		before := t.st.Ops
 		path, perr := shadow.ProcessOperation(o, false)
 		if perr != nil {
@@ -699,6 +714,76 @@ func (t *airTrace) recordReinit(c *cluster, n *vnode, cold types.Operation, rb [
 		sh = scalarHex(krs[round].Share.V)
 	}
 	t.emit(fmt.Sprintf("ring %d %s", mid, strTok(round)), "share="+sh)
+}
+
+// craftedReinits: hand-made variants of a genuine reinit_dkg operation, each handed to a fresh machine with the participant's
+// mnemonic: an entry of an unknown type before the round exists on the machine (the re-initialisation ends there, fatally), after
+// it exists (an error result inside, the loop goes on), for a round the machine knows nothing of at the very end (the key ring is
+// written, the answer is an error result), and a payload without its master-key step (no key ring to answer with)
+func (t *airTrace) craftedReinits(c *cluster, n *vnode, cold types.Operation) {
+	var inner []types.Operation
+	if json.Unmarshal(cold.Payload, &inner) != nil || len(inner) < 4 {
+		return
+	}
+	round := cold.DKGIdentifier
+	unknown := func(r string) types.Operation {
+		return types.Operation{ID: "unknown-type", Type: "no_such_state", DKGIdentifier: r, Payload: []byte("{}")}
+	}
+	firstKG := -1
+	for i, o := range inner {
+		if string(o.Type) == "state_dkg_commits_await_confirmations" {
+			firstKG = i
+			break
+		}
+	}
+	if firstKG < 0 {
+		return
+	}
+	variants := map[string][]types.Operation{}
+	variants["unknown-type-before-the-round-exists"] = append([]types.Operation{unknown(round)}, inner...)
+	v2 := append([]types.Operation{}, inner[:firstKG+1]...)
+	v2 = append(v2, unknown(round))
+	v2 = append(v2, inner[firstKG+1:]...)
+	variants["unknown-type-after-the-commits-step"] = v2
+	variants["unknown-type-of-another-round-at-the-end"] = append(append([]types.Operation{}, inner...), unknown("a-round-the-machine-knows-nothing-of"))
+	variants["without-the-master-key-step"] = append([]types.Operation{}, inner[:len(inner)-1]...)
+	names := make([]string, 0, len(variants))
+	for k := range variants {
+		names = append(names, k)
+	}
+	sort.Strings(names)
+	for _, name := range names {
+		payload, err := json.Marshal(variants[name])
+		if err != nil {
+			continue
+		}
+		dir, err := os.MkdirTemp("", "verif-crafted-")
+		if err != nil {
+			return
+		}
+		mv, err := newMachine(dir, "pw", testMnemonics[n.idx%len(testMnemonics)])
+		if err != nil {
+			os.RemoveAll(dir)
+			return
+		}
+		op := cold
+		op.Payload = payload
+		out := tryOperation(mv, op, true)
+		vn := &vnode{air: mv, idx: n.idx, name: n.name}
+		switch out.kind {
+		case "result", "error-result":
+			rb, _ := json.Marshal(out.result)
+			t.recordReinit(c, vn, op, rb, nil)
+		case "fatal":
+			t.recordReinit(c, vn, op, nil, fmt.Errorf("%s", out.err))
+		default:
+			t.st.SkipWhy["hand-made reinit payload: the machine answered "+out.kind]++
+			t.st.Skipped++
+		}
+		t.st.CraftedReinits++
+		mv.VerifCloseDB()
+		os.RemoveAll(dir)
+	}
 }
 
 // stopped: the process of `old` was stopped and started again on the same database (`reopened`): `stop` to the model
